@@ -413,3 +413,51 @@ def sizes_use_transformed_value(ck, rule):
                                "a size fixed before looking at the (transformed) value pre-empts the inference")
     if nbad == 0:
         ck.ok(rule, f, "on all %d value paths the inferred sizes derive from the normaliser's output (or the searches over it)" % npaths)
+
+
+def order_consistency(ck, rule):
+    """C13.R4 / C18.R6: helpers that take an array apart element by element and rebuild it do both in the same (default, C) order: any explicit
+    order= of flatten / ravel / reshape / np.array inside such a helper must be 'C'.  Reading in memory order ('K', 'A', 'F') and refilling in C
+    order permutes the elements of non-contiguous arrays (x.T, Fortran-ordered inputs)."""
+    prog = ck.prog
+    n = 0
+    subjects = [f for f in prog.all_funcs() if f.module == "utils" or f.qualname in ("objects.Fxp.set_val", "objects.Fxp.astype", "objects.Fxp._format_inupt_val")]
+    for f in subjects:
+        for c in calls_in(f.node):
+            nm = c.func.attr if isinstance(c.func, ast.Attribute) else None
+            if nm in ("ravel", "flatten", "reshape", "tolist") or dotted(c.func) in ("np.ravel", "np.reshape", "np.array", "np.asarray"):
+                o = kw(c, "order")
+                if o is None and nm in ("ravel", "flatten") and c.args:
+                    o = c.args[0]
+                n += 1
+                if o is not None and not (isinstance(o, ast.Constant) and o.value in ("C", None)):
+                    ck.bad(rule, f, "element-wise helpers read and rebuild arrays in the same (C) order", "%s" % src(c)[:70], c,
+                           "elements of a transposed / Fortran-ordered array end up in other cells")
+    ck.ok(rule, "fxpmath/utils.py, set_val, astype", "%d flatten/ravel/reshape sites use the default order" % n, nontrivial=False)
+
+
+def array_protocol_values(ck, rule):
+    """C15.R6: __array__ (what numpy functions outside the registry receive) exports the values unless the configuration asks for raw codes: the only
+    path that returns the codes is selected by config.array_op_method == 'raw'."""
+    prog = ck.prog
+    from ..common import str_state
+    f = prog.func("objects.Fxp.__array__", required=False)
+    if f is None:
+        ck.bad(rule, "objects.Fxp", "Fxp implements __array__", "__array__ missing")
+        return
+    nv = 0
+    for pf in fpaths(prog, f):
+        if pf.end != "return" or pf.ret is None:
+            continue
+        inner = peel(pf.ret)[0]
+        eq, ne = str_state(pf.guards, "self.config.array_op_method")
+        rawsel = eq is not None and eq == {"raw"}
+        if dotted(inner) == "self.val":
+            ck.check(rawsel, rule, f, "the raw codes are exported only when config.array_op_method == 'raw'", "returns %s under %s" % (src(pf.ret)[:50], [(src(g[0])[:40], g[1]) for g in pf.guards]), pf.ret_stmt,
+                     "numpy functions that are not in the registry (matmul, ...) would compute on codes instead of values: results off by 2^n_frac")
+        elif isinstance(inner, ast.Call) and isinstance(inner.func, ast.Attribute) and inner.func.attr == "get_val" and dotted(inner.func.value) == "self":
+            nv += 1
+        else:
+            ck.bad(rule, f, "__array__ returns the values (get_val()) or, in raw mode, the codes", "returns %s" % src(pf.ret)[:60], pf.ret_stmt)
+    ck.check(nv >= 1, rule, f, "__array__ has a value-exporting path", "no path returns self.get_val()", f.node)
+    ck.saw(f)
